@@ -31,6 +31,7 @@ MOLTYPES = (
 SUFFIX = {"fasta": "fasta", "phylip": "phylip", "paml": "paml", "gde": "gde", "json": "json"}
 COMPRESSIONS = ("", ".gz", ".bz2")
 CHUNKS = (1, 2, 3, 5, 8)
+DEFAULT_WIDTHS = (1, 6, 53)  # widening of the three positions of a block-3 case to the default block of 60
 
 _scratch = None
 _counter = 0
@@ -360,6 +361,28 @@ def run_case(job):
                 agrees = isinstance(got, Exception) if pred is None else (not isinstance(got, Exception) and got == pred)
                 if not agrees:
                     out.append(("drift", f"{vname} differs from its transcription {mv}", {**base, "observed": _show(got), "model": m}))
+    # ragged family Q at the writers' DEFAULT wrap width: the block-3 case is widened position by position
+    # (widths 1, 6, 53 = 60 per block, so the lengths 0/1/3/4/8 become 0/1/60/61/127) and written without block_size
+    if c["fam"] == "Q" and block == 3:
+        wide = lambda sq: "".join(ch * DEFAULT_WIDTHS[j % 3] for j, ch in enumerate(sq))
+        wrecs = lambda recs: recs if recs is None else [(n, wide(sq)) for n, sq in recs]
+        wdata = {n: wide(sq) for n, sq in zip(names, seqs)}
+        wexp, wallowed = wrecs(exp), [wrecs(a) for a in allowed]
+        obj = _call(lambda: cogent3.make_unaligned_seqs(wdata, moltype=mtname))
+        if not isinstance(obj, Exception):
+            chosen = list(COMPRESSIONS) if tier == "thorough" else [COMPRESSIONS[idx % len(COMPRESSIONS)]]
+            for cmp in chosen:
+                path = _scratch / f"{stem}_wide.{SUFFIX[fmt]}{cmp}"
+                written.append(path)
+                w = _call(lambda: obj.write(path))
+                got = w if isinstance(w, Exception) else _call(lambda: _project_coll(cogent3.load_unaligned_seqs(path, moltype=mtname)))
+                stats["loads"] += 1
+                stats["default_width_roundtrips"] = stats.get("default_width_roundtrips", 0) + 1
+                d = diff_kind(got, wexp, wallowed)
+                if d:
+                    out.append(("fail", f"{fmt}:roundtrip-default-width:{cls}:{d}", f"write+load SequenceCollection {fmt}{cmp or ' plain'} at the default line width",
+                                {**base, "lengths": [len(x) for x in wdata.values()], "file": path.name,
+                                 "observed_lengths": None if isinstance(got, Exception) else [len(x[1]) for x in got], "observed": _show(got)[:3] if not isinstance(got, Exception) else _show(got)}))
     # load_seq returns ONE sequence of the file: the first record
     if fmt != "json" and plain_path is not None and text is not None:
         def first_seq():
